@@ -529,6 +529,14 @@ func (r *Ref) bin(n *N) (interface{}, *EvalError) {
 		return nil, err
 	}
 	switch op {
+	case "**":
+		// only the overloaded form is in the fragment: OpA applied to two *Obj
+		x, ok1 := a.(*Obj)
+		y, ok2 := b.(*Obj)
+		if !ok1 || !ok2 {
+			return nil, r.outside(n, "** on %T, %T", a, b)
+		}
+		return r.guard(n, func() interface{} { return r.env.OpA(x, y) })
 	case "+":
 		if x, ok := a.(int); ok {
 			if y, ok := b.(int); ok {
